@@ -517,4 +517,53 @@ theorem arith_G (gf sN k k' gt f1 t1 g1 h1 len G : Nat) (q1 : f1 = sN + 1 + g1) 
 theorem arith_e (f a k k' x : Nat) (h : x + k = a + k') (hk : k ≤ a) : f + a - k + k' = f + x + 0 := by omega
 
 
+
+/-! ### mark steps inside the gap -/
+
+/-- the marked slice of a mark step on a valid document is a valid payload -/
+theorem markStep_as_replace_valid (S : Schema) (hts : TextStableP S) (d db : Node) (f2 t2 : Nat) (mk : Mark) (M : Step)
+    (hM : M = .addMark f2 t2 mk ∨ M = .removeMark f2 t2 mk) (hn : fnorm d.kids = true)
+    (hv : S.checkNode d = true) (hb : S.apply M d = .ok db) :
+    ∃ old slM, d.slice f2 t2 = .ok old ∧ slM.openStart = old.openStart ∧ fnorm slM.content = true ∧
+      openValid S slM.openStart slM.openEnd slM.content = true ∧
+      S.apply (.replace f2 t2 slM false) d = .ok db := by
+  rcases hM with rfl | rfl
+  · have h' := hb
+    unfold Schema.apply at h'
+    simp only at h'
+    split at h'
+    · simp at h'
+    · rename_i old hold
+      split at h'
+      · simp at h'
+      · rename_i p hp
+        refine ⟨old, ⟨fromArray (addMarkKids S mk p old.content), old.openStart, old.openEnd⟩, hold, rfl, ?_,
+          addMark_payload S hts mk p _ _ _ (slice_openValid S d f2 t2 old hv hold),
+          by simpa [Schema.apply] using h'⟩
+        have hon := (sliceKids_norm d.kids f2 t2 old hn hold).1
+        simp only [addMarkKids_eq_map]
+        exact fromArray_norm _ ((addMark_markMap S mk).norm_list _ p (fnormKids_of_fnorm hon))
+  · have h' := hb
+    unfold Schema.apply at h'
+    simp only at h'
+    split at h'
+    · simp at h'
+    · rename_i old hold
+      refine ⟨old, ⟨fromArray (removeMarkKids S mk old.content), old.openStart, old.openEnd⟩, hold, rfl, ?_,
+        removeMark_payload S hts mk _ _ _ (slice_openValid S d f2 t2 old hv hold),
+        by simpa [Schema.apply] using h'⟩
+      have hon := (sliceKids_norm d.kids f2 t2 old hn hold).1
+      simp only [removeMarkKids_eq_map]
+      exact fromArray_norm _ ((removeMark_markMap S mk).norm_list _ 0 (fnormKids_of_fnorm hon))
+
+/-- the kept gap inside the token list of a replace-around step's result -/
+theorem aroundL_getElem?_gap {α} (L X Y : List α) (f gf gt t j : Nat) (hg : f ≤ gf ∧ gf ≤ gt ∧ gt ≤ t)
+    (hl : t ≤ L.length) (hj : j < gt - gf) :
+    (aroundL L f gf gt t X Y)[f + X.length + j]? = L[gf + j]? := by
+  rw [← aroundL_eq L X Y f gf gt t hg hl]
+  have h1 : (L.take f ++ X).length = f + X.length := by simp; omega
+  rw [List.append_assoc, List.append_assoc,
+    List.getElem?_append_right (by omega), h1, show f + X.length + j - (f + X.length) = j by omega,
+    List.getElem?_append_left (by simp; omega), List.getElem?_take_of_lt hj, List.getElem?_drop]
+
 end PM
